@@ -78,9 +78,16 @@ def run(chk, facts):
     except AnchorError as e:
         chk.anchor_fail("R-C09-2", e)
 
+    field_init(chk, facts, "R-C09-3")
+    chk.notes.append("C09: abstract interpretation of every generator function over the Environment record (assume/guarantee on the recursive entry).")
+
+
+def field_init(chk, facts, rule):
+    """definite assignment of constructor fields (shared by R-C09-3 and R-C04-7)"""
+    syn = facts.syn
     # ---------------- R-C09-3 ----------------
-    envflow.check_unassigned_join(chk, facts, "R-C09-3")
-    envflow.check_unassigned_closed(chk, facts, "R-C09-3")
+    envflow.check_unassigned_join(chk, facts, rule)
+    envflow.check_unassigned_closed(chk, facts, rule)
     try:
         gc_ = syn.one_fn("gen_call", mod="check::constrain::generate::call")
         arm_ = _arm(gc_, "Node::Reassign")
@@ -98,11 +105,11 @@ def run(chk, facts):
             ok = names == ["all_calls", "iter", "flat_map", "flat_map"] and src(cur) == "identifier" and \
                 "call.without_obj(arg::SELF,left.pos)" in bodies and \
                 any(b.startswith("matchidenti_call{IdentiCall::Iden(var)=>Some(var)") and b.endswith("_=>None}") for b in bodies)
-        chk.ob("R-C09-3", "assignment-marks-direct-self-field-only", ok,
+        chk.ob(rule, "assignment-marks-direct-self-field-only", ok,
                "an assignment marks a field as assigned only when the target is `self.<field>` itself" if ok else
                "the set of fields an assignment marks as assigned is no longer `self.<field>` only: `self.a.b := e` (which *reads* a) can mark `a` as assigned", facts.loc_of(gc_))
     except AnchorError as e:
-        chk.anchor_fail("R-C09-3", e)
+        chk.anchor_fail(rule, e)
     try:
         pc = syn.one_fn("property_call", mod="check::constrain::generate::call")
         loc = facts.loc_of(pc)
@@ -113,7 +120,7 @@ def run(chk, facts):
                 if "env.unassigned.contains(lit)" in c and "arg::SELF" in c and "&&" in c and "||" not in c and not c.startswith("!"):
                     if any(m.get("k") == "return" and "Err" in src(m) for m in walk(n["then"])):
                         ok = True
-        chk.ob("R-C09-3", "property_call:self.f-unassigned=>Err", ok, "`self.f` is refused while `f` is in the unassigned set" if ok else
+        chk.ob(rule, "property_call:self.f-unassigned=>Err", ok, "`self.f` is refused while `f` is in the unassigned set" if ok else
                "property_call no longer refuses `self.f` for an unassigned field", loc)
         gd = syn.one_fn("gen_def", mod="check::constrain::generate::definition")
         arm = _arm(gd, "Node::FunDef")
@@ -125,13 +132,12 @@ def run(chk, facts):
                     if m.get("k") == "if" and src(strip(m["c"])).replace(" ", "") == f"!{nm[0]}.is_empty()":
                         if any(x.get("k") == "return" and "Err" in src(x) for x in walk(m["then"])):
                             ok = True
-        chk.ob("R-C09-3", "init:unassigned-at-end=>Err", ok, "a constructor whose body leaves a non-nullable field unassigned is rejected" if ok else
+        chk.ob(rule, "init:unassigned-at-end=>Err", ok, "a constructor whose body leaves a non-nullable field unassigned is rejected" if ok else
                "gen_def no longer rejects a constructor that leaves non-nullable fields unassigned", facts.loc_of(gd))
         # the body_env whose unassigned is inspected is the one generate(body, ..) returned
         res, fns, summ = envflow.data_fields(facts)
     except AnchorError as e:
-        chk.anchor_fail("R-C09-3", e)
-    chk.notes.append("C09: abstract interpretation of every generator function over the Environment record (assume/guarantee on the recursive entry).")
+        chk.anchor_fail(rule, e)
 
 
 def _strs(c):
